@@ -22,10 +22,11 @@ prop("C01", "proof",
      "correspondence run of the extracted model against zkryptium.", "DESIGN.md §10 C01")
 prop("C02", "proof",
      "Unconditional theorems: for an accepted (A,e) every other A' (same e) and every other e' (same A) is rejected on the same inputs, hence every edit confined to one "
-     "of the two fields of the 80-byte encoding -- in particular all 640 single-bit flips -- is Err at decoding or verification (with codec canonicity, C09). The message / header / key / cross-suite "
-     "clauses rest on collision resistance and discrete logarithms and are covered by correspondence + sweep on every mutation class the property lists, both suites, both interfaces "
-     "(reduction theorems are added as they are proved; see DESIGN.md).",
-     "DESIGN.md §10 C02")
+     "of the two fields of the 80-byte encoding -- in particular all 640 single-bit flips -- is Err at decoding or verification (with codec canonicity, C09). Reduction theorem "
+     "verify_binding: one signature accepted for two different (messages, header) of the same length (byte change, swap, replacement; header change, None = empty) constructs a "
+     "collision of the message hash on two explicit different messages, a collision of the domain hash on explicit different octets, or a non-trivial discrete-log relation among "
+     "Q1, H_1..H_L (no injectivity hypothesis on any hash). PARTIAL: insert / delete / truncate / extend (length changes), other public key and cross-suite / cross-interface "
+     "clauses are decided by correspondence + sweep on every mutation class the property lists.", "DESIGN.md §10 C02")
 prop("C03", "proof",
      "Coq theorem proof_complete: for every environment with Laws, every valid signature, every message list (any L), every index list (unsorted, duplicates allowed, "
      "entries < L), every header / presentation header and all draws outside {r1 = 0, r2 = 0}: proof_gen = Ok p, proof_verify with exactly the disclosed messages at their "
